@@ -148,7 +148,7 @@ theorem readAt_sub_mod (file : Bytes) (x len : Nat) (bs : Bytes) (h : readAt fil
     exact readAt_sub file _ len bs h off len' hsub (by unfold two63 at *; omega)
 
 /-- what a successful full `read_crs` tells about the file -/
-structure FullRead (memLimit vsz : Nat) (dec : Bytes → V) (file : Bytes) (n : Nat) (ptrF : List Int) (nnz : Int)
+structure FullRead (memLimit : Nat) (file : Bytes) (n : Nat) (ptrF : List Int) (nnz : Int)
     (pb zb cb vb : Bytes) : Prop where
   n63 : n < two63
   rn : ∃ nb, readAt file 0 8 = some nb ∧ leVal nb = n
@@ -160,14 +160,14 @@ structure FullRead (memLimit vsz : Nat) (dec : Bytes → V) (file : Bytes) (n : 
   head : ptrF.head? = some 0
   mem1 : (n + 1) * 8 ≤ memLimit
 
-theorem binReadCrs_full_inv (memLimit vsz : Nat) (dec : Bytes → V) (file : Bytes) (F : RawCRS V)
-    (hF : binReadCrs true memLimit vsz dec file (-1) (-1) = .ok F) :
+theorem binReadCrs_full_inv (memLimit csz : Nat) (cdec : Bytes → Int) (vsz : Nat) (dec : Bytes → V) (file : Bytes)
+    (F : RawCRS V) (hF : binReadCrs true memLimit csz cdec vsz dec file (-1) (-1) = .ok F) :
     ∃ n ptrF nnz pb zb cb vb back,
-      FullRead memLimit vsz dec file n ptrF nnz pb zb cb vb ∧
-      ptrF.getLast? = some back ∧ 0 ≤ back ∧ back * 8 ≤ (memLimit : Int) ∧ back * vsz ≤ (memLimit : Int) ∧
-      readAt file (((8 + (n + 1) * 8) % two64 + 0 * 8) % two64) (back.toNat * 8) = some cb ∧
-      readAt file (((8 + (n + 1) * 8) % two64 + ofS64 nnz * 8 + 0 * vsz) % two64) (back.toNat * vsz) = some vb ∧
-      ∃ cv, sortRows wrap32 ptrF (((splitEvery 8 back.toNat cb).map (fun x => toS64 (leVal x))).zip
+      FullRead memLimit file n ptrF nnz pb zb cb vb ∧
+      ptrF.getLast? = some back ∧ 0 ≤ back ∧ back * csz ≤ (memLimit : Int) ∧ back * vsz ≤ (memLimit : Int) ∧
+      readAt file (((8 + (n + 1) * 8) % two64 + 0 * csz) % two64) (back.toNat * csz) = some cb ∧
+      readAt file (((8 + (n + 1) * 8) % two64 + ofS64 nnz * csz + 0 * vsz) % two64) (back.toNat * vsz) = some vb ∧
+      ∃ cv, sortRows wrap32 ptrF (((splitEvery csz back.toNat cb).map cdec).zip
               ((splitEvery vsz back.toNat vb).map dec)) = some cv ∧
         F = ⟨n, 0, ptrF, cv.map (·.1), cv.map (·.2)⟩ := by
   unfold binReadCrs at hF
@@ -300,13 +300,15 @@ variable {V : Type}
 
 /-- **row-range `read_crs` = slice of the full read**, for every file (shorter than `2^63` bytes) whose full read
 succeeds: the full result is the CRS of a row list `R`, and rows `[b, e)` read separately are the CRS of `R[b..e)`. -/
-theorem binReadCrs_range_eq_slice (memLimit vsz : Nat) (dec : Bytes → V) (file : Bytes) (hfile : file.length < two63)
-    (F : RawCRS V) (hF : binReadCrs true memLimit vsz dec file (-1) (-1) = .ok F) :
+theorem binReadCrs_range_eq_slice (memLimit csz : Nat) (cdec : Bytes → Int) (vsz : Nat) (dec : Bytes → V) (file : Bytes)
+    (hfile : file.length < two63)
+    (F : RawCRS V) (hF : binReadCrs true memLimit csz cdec vsz dec file (-1) (-1) = .ok F) :
     ∃ R : List (List (Int × V)), R.length = F.nrows ∧ F = RawCRS.ofRows F.nrows 0 R ∧
       ∀ b e : Nat, b ≤ e → e ≤ F.nrows →
-        binReadCrs true memLimit vsz dec file b e = .ok (RawCRS.ofRows (e - b) 0 ((R.drop b).take (e - b))) := by
+        binReadCrs true memLimit csz cdec vsz dec file b e
+          = .ok (RawCRS.ofRows (e - b) 0 ((R.drop b).take (e - b))) := by
   obtain ⟨n, ptrF, nnz, pb, zb, cb, vb, back, fr, hlast, hback0, hm2, hm3, hcb, hvb, cv, hcv, hFeq⟩ :=
-    binReadCrs_full_inv memLimit vsz dec file F hF
+    binReadCrs_full_inv memLimit csz cdec vsz dec file F hF
   obtain ⟨nb, hnb, hnbn⟩ := fr.rn
   unfold binReadCrs binCrsBody
   have hw := wrap32_le
@@ -314,10 +316,10 @@ theorem binReadCrs_range_eq_slice (memLimit vsz : Nat) (dec : Bytes → V) (file
   obtain ⟨hnnz0, ⟨_, _, _, _⟩, hmono, ⟨pl, hlast', hpl⟩⟩ := ptrValid_spec _ _ _ fr.valid
   rw [hlast] at hlast'; injection hlast' with hlast'; subst hlast'
   -- the unsorted arrays of the full read, cut into rows
-  have hclen : ((splitEvery 8 back.toNat cb).map (fun x => toS64 (leVal x))).length = back.toNat := by
+  have hclen : ((splitEvery csz back.toNat cb).map cdec).length = back.toNat := by
     simp [splitEvery_length]
   have hvlen : ((splitEvery vsz back.toNat vb).map dec).length = back.toNat := by simp [splitEvery_length]
-  generalize hcol0 : (splitEvery 8 back.toNat cb).map (fun x => toS64 (leVal x)) = col0 at hcv hclen
+  generalize hcol0 : (splitEvery csz back.toNat cb).map cdec = col0 at hcv hclen
   generalize hval0 : (splitEvery vsz back.toNat vb).map dec = val0 at hcv hvlen
   have hzlen : (col0.zip val0).length = back.toNat := by rw [List.length_zip, hclen, hvlen]; simp
   obtain ⟨R0, hflat, hptrF⟩ := exists_rows_of_ptr ptrF 0 (col0.zip val0) hmono fr.head
@@ -443,32 +445,36 @@ theorem binReadCrs_range_eq_slice (memLimit vsz : Nat) (dec : Bytes → V) (file
   rw [hshift, ptrFrom_getLast?]
   simp only [Int.zero_add]
   have hback'le : (((lens.drop b).take (e - b)).sum : Int) ≤ back := by rw [hbacknat]; push_cast; omega
-  rw [if_neg (by omega), if_neg (by omega), if_neg (by
+  rw [if_neg (by omega), if_neg (by
+    have : ((((lens.drop b).take (e - b)).sum : Nat) : Int) * csz ≤ back * csz :=
+      Int.mul_le_mul_of_nonneg_right hback'le (by omega)
+    omega), if_neg (by
     have : ((((lens.drop b).take (e - b)).sum : Nat) : Int) * vsz ≤ back * vsz :=
       Int.mul_le_mul_of_nonneg_right hback'le (by omega)
     omega)]
   simp only [Int.toNat_natCast]
   -- column and value blocks
-  have hcb' := readAt_sub_mod file ((8 + (n + 1) * 8) % two64 + 0 * 8) (back.toNat * 8) cb hcb
-    ((lens.take b).sum * 8) (((lens.drop b).take (e - b)).sum * 8) (by
+  have hcb' := readAt_sub_mod file ((8 + (n + 1) * 8) % two64 + 0 * csz) (back.toNat * csz) cb hcb
+    ((lens.take b).sum * csz) (((lens.drop b).take (e - b)).sum * csz) (by
       have : (lens.take b).sum + ((lens.drop b).take (e - b)).sum ≤ back.toNat := by omega
-      have := Nat.mul_le_mul_right 8 this
+      have := Nat.mul_le_mul_right csz this
       rw [Nat.add_mul] at this; exact this) hfile
-  have ecb : (8 + (n + 1) * 8) % two64 + 0 * 8 + (lens.take b).sum * 8 = (8 + (n + 1) * 8) % two64 + (lens.take b).sum * 8 := by omega
+  have ecb : (8 + (n + 1) * 8) % two64 + 0 * csz + (lens.take b).sum * csz
+      = (8 + (n + 1) * 8) % two64 + (lens.take b).sum * csz := by omega
   rw [ecb] at hcb'
   rw [hcb']
   simp only []
-  have hvb' := readAt_sub_mod file ((8 + (n + 1) * 8) % two64 + ofS64 nnz * 8 + 0 * vsz) (back.toNat * vsz) vb hvb
+  have hvb' := readAt_sub_mod file ((8 + (n + 1) * 8) % two64 + ofS64 nnz * csz + 0 * vsz) (back.toNat * vsz) vb hvb
     ((lens.take b).sum * vsz) (((lens.drop b).take (e - b)).sum * vsz) (by
       have : (lens.take b).sum + ((lens.drop b).take (e - b)).sum ≤ back.toNat := by omega
       have := Nat.mul_le_mul_right vsz this
       rw [Nat.add_mul] at this; exact this) hfile
-  have evb : (8 + (n + 1) * 8) % two64 + ofS64 nnz * 8 + 0 * vsz + (lens.take b).sum * vsz
-      = (8 + (n + 1) * 8) % two64 + ofS64 nnz * 8 + (lens.take b).sum * vsz := by omega
+  have evb : (8 + (n + 1) * 8) % two64 + ofS64 nnz * csz + 0 * vsz + (lens.take b).sum * vsz
+      = (8 + (n + 1) * 8) % two64 + ofS64 nnz * csz + (lens.take b).sum * vsz := by omega
   rw [evb] at hvb'
   rw [hvb']
   simp only []
-  rw [splitEvery_sub 8 _ _ back.toNat (by omega) cb, splitEvery_sub vsz _ _ back.toNat (by omega) vb,
+  rw [splitEvery_sub csz _ _ back.toNat (by omega) cb, splitEvery_sub vsz _ _ back.toNat (by omega) vb,
     List.map_take, List.map_drop, List.map_take, List.map_drop, hcol0, hval0, zip_take, zip_drop, hflat]
   have hfl := flatten_drop_take R0 b (e - b)
   rw [hlensdef] at hfl
